@@ -4,6 +4,7 @@ from __future__ import annotations
 import numpy as np
 from hypothesis import strategies as st
 
+from vp.core import engine
 from vp.core.engine import Obligation, Property
 from vp.gen import agents as ag
 from vp.obs import tensors as T
@@ -162,6 +163,34 @@ def run_select(case, ctx):
         old_max = max(lists_before[i][3] for i in range(len(pop)))
         fresh = idx[1:] if case["elitism"] else idx
         ctx.check(all(i > old_max for i in fresh), "C05/index_not_fresh", "a non-elite member reuses an old index", indices=idx, old_max=old_max)
+        # --- copies, not aliases: training the new generation leaves the old one (and the siblings) untouched -----------
+        if case.get("train_after") and new_pop:
+            who = case["train_after"] % len(new_pop)
+            trainee = new_pop[who]
+            others = [(j, a, T.snapshot(a)) for j, a in enumerate(new_pop) if a is not trainee] + [("elite", elite, T.snapshot(elite))]
+            try:
+                ag.seed_all(gen)
+                ag.learn_once(trainee, {"algo": algo, "obs": "vector"}, 50 + gen)
+                trained = True
+            except Exception as e:  # noqa: BLE001 - learning is not C05's promise
+                ctx.label(f"learn-after-select-raised:{type(e).__name__}")
+                trained = False
+            if trained:
+                ctx.label("trained-a-member-of-the-new-generation")
+                for i, a in enumerate(pop):
+                    if a is trainee:
+                        continue
+                    d = T.diff(before[i], T.snapshot(a))
+                    if d:
+                        ctx.fail("C05/old_population_changed_by_training_a_copy", "a learn step of a member of the new generation changed "
+                                 f"a member of the old population (the copy shares state with it): {d[0]}", member=i, trainee=who, diffs=d[:4])
+                for j, a, snap in others:
+                    if a is trainee:
+                        continue
+                    d = T.diff(snap, T.snapshot(a))
+                    if d:
+                        ctx.fail("C05/sibling_changed_by_training_a_copy", "a learn step of one member of the new generation changed "
+                                 f"another member / the returned elite: {d[0]}", member=j, trainee=who, diffs=d[:4])
         # next generation
         pop = new_pop
         rng = np.random.default_rng(case["npseed"] * 31 + gen)
@@ -182,11 +211,12 @@ def select_strategy(draw, tier):
     fit = [draw(st.lists(st.integers(-3, 3), min_size=1, max_size=5)) for _ in range(n)]
     base = draw(st.integers(0, 20))
     indices = draw(st.permutations(list(range(base, base + n))))
-    algo = "DQN" if tier == "quick" else draw(st.sampled_from(["DQN", "DQN", "DDPG", "PPO", "NeuralUCB", "MADDPG", "IPPO", "Rainbow", "TD3", "CQN", "MATD3"]))
+    algo = draw(st.sampled_from(engine.stratum(["DQN", "DDPG", "PPO", "NeuralUCB", "MADDPG", "IPPO", "Rainbow", "TD3", "CQN", "MATD3", "DQN", "DQN"])))
     return {"algo": algo, "fitness": fit, "indices": list(indices), "tsize": draw(st.integers(1, n + 2)),
             "eval_loop": draw(st.integers(1, 5)), "elitism": draw(st.booleans()),
             "popsize": draw(st.one_of(st.just(n), st.integers(1, 7))), "npseed": draw(st.integers(0, 9999)),
-            "seed": draw(st.integers(0, 50)), "generations": draw(st.integers(1, 3)), "learn_first": draw(st.booleans())}
+            "seed": draw(st.integers(0, 50)), "generations": draw(st.integers(1, 3)), "learn_first": draw(st.booleans()),
+            "train_after": draw(st.sampled_from([0, 0, 1, 2, 3, 5]))}
 
 
 PROPERTY = Property(
@@ -194,7 +224,9 @@ PROPERTY = Property(
     level="exploration",
     rule=("populations of 1-6 agents with drawn fitness histories (ties, negatives, unequal lengths), tournament size 1..N+2, eval window 1-5, "
           "elitism flag, configured population size (may differ from len), numpy seed, 1-3 successive generations; numpy.random.randint is "
-          "wrapped during select() to RECORD each tournament's draws; non-trivial = some tournament drew >=2 distinct agents with distinct "
+          "wrapped during select() to RECORD each tournament's draws; in 2 of 3 cases one member of each new generation takes a learn "
+          "step afterwards and the old population, its siblings and the returned elite must not change (copies, not aliases); the "
+          "algorithm is stratified over the shards (DQN, DDPG, PPO, NeuralUCB, MADDPG, IPPO, Rainbow, TD3, CQN, MATD3); non-trivial = some tournament drew >=2 distinct agents with distinct "
           "means; distinct by (fitness table, sizes, flags, seed)"),
     obligations=[
         Obligation("select", run_select, strategy=select_strategy,
@@ -203,5 +235,5 @@ PROPERTY = Property(
     ],
     assumptions=["parents are identified by value (weights + fitness list); agents are built from distinct seeds so weights are distinct",
                  "uniformity of the draws themselves is numpy's and is not checked"],
-    wanted_labels=["elitism", "no-elitism", "popsize!=len"],
+    wanted_labels=["elitism", "no-elitism", "popsize!=len", "trained-a-member-of-the-new-generation"],
 )
